@@ -176,14 +176,18 @@ Definition supply_bound (W : Z) : Prop := W < tok U64.
 
 Ltac inv_split := split; [|split; [|split; [|split; [|split]]]].
 
-Lemma fee_step_inv : forall A I W s src, universe A I -> In src A -> led_inv A I W s ->
-  led_inv A I W (fst (fee_step s src)).
+Lemma tx_fee_pos : forall e, 0 <= tx_fee e.
+Proof. intros e. unfold tx_fee. destruct (g026 (gates e)); lia. Qed.
+
+Lemma fee_step_inv : forall A I W e s src, universe A I -> In src A -> led_inv A I W s ->
+  led_inv A I W (fst (fee_step e s src)).
 Proof.
-  intros A I W s src (HA & HI & Hfee) Hsrc (Hwf & Hb & Hp & He & Hbu & Hw). unfold fee_step.
-  destruct (Z.ltb_spec (bal s src) tx_fee); cbn [fst]; [unfold led_inv; tauto|].
+  intros A I W e s src (HA & HI & Hfee) Hsrc (Hwf & Hb & Hp & He & Hbu & Hw). unfold fee_step.
+  pose proof (tx_fee_pos e) as Hfp.
+  destruct (Z.ltb_spec (bal s src) (tx_fee e)); cbn [fst]; [unfold led_inv; tauto|].
   unfold led_inv, wealth, set_bal in *; cbn [cur bal pend esc burned]. inv_split; try assumption.
   - apply add_bal_nonneg, sub_bal_nonneg, Hb.
-  - rewrite move_sum; try assumption; unfold tx_fee; lia.
+  - rewrite move_sum; try assumption; lia.
 Qed.
 
 Lemma no_wrap : forall A I W s src k i delta, universe A I -> supply_bound W -> led_inv A I W s ->
@@ -299,12 +303,12 @@ Proof.
       rewrite locked_updr_in by assumption. cbn [s_stake]. lia.
 Qed.
 
-Theorem run_tx_inv : forall A I W e h t s, universe A I -> supply_bound W -> tx_closed A I t -> led_inv A I W s ->
-  led_inv A I W (fst (run_tx e h t s)).
+Theorem run_tx_inv : forall A I W e h t s, g002 (gates e) = true -> universe A I -> supply_bound W -> tx_closed A I t ->
+  led_inv A I W s -> led_inv A I W (fst (run_tx e h t s)).
 Proof.
-  intros A I W e h t s HU HW Hcl Hinv. unfold run_tx.
-  pose proof (fee_step_inv A I W s (tx_src t) HU (proj1 Hcl) Hinv) as H1.
-  destruct (fee_step s (tx_src t)) as [s1 ok]. cbn [fst] in H1. destruct ok; [|exact Hinv].
+  intros A I W e h t s G2 HU HW Hcl Hinv. unfold run_tx. rewrite G2.
+  pose proof (fee_step_inv A I W e s (tx_src t) HU (proj1 Hcl) Hinv) as H1.
+  destruct (fee_step e s (tx_src t)) as [s1 ok]. cbn [fst] in H1. destruct ok; [|exact Hinv].
   destruct (execute e h t s1) as [s2 r] eqn:Ee.
   destruct (execute_shape e h t s1 s2 r Ee) as (_ & Hpend & _).
   assert (Hfail : r <> ROk -> led_inv A I W {| cur := cur s1; trie := trie s1; bal := bal s1; pend := pend s2; esc := esc s1; burned := burned s1 |}).
@@ -326,18 +330,18 @@ Qed.
 
 Definition txs_closed (A I : list N) (ts : list tx) : Prop := Forall (tx_closed A I) ts.
 
-Lemma run_txs_inv : forall A I W e h ts s, universe A I -> supply_bound W -> txs_closed A I ts -> led_inv A I W s ->
-  led_inv A I W (fst (run_txs e h ts s)).
+Lemma run_txs_inv : forall A I W e h ts s, g002 (gates e) = true -> universe A I -> supply_bound W -> txs_closed A I ts ->
+  led_inv A I W s -> led_inv A I W (fst (run_txs e h ts s)).
 Proof.
-  intros A I W e h ts. induction ts as [|t r IH]; intros s HU HW Hcl Hinv; [exact Hinv|].
+  intros A I W e h ts. induction ts as [|t r IH]; intros s G2 HU HW Hcl Hinv; [exact Hinv|].
   inversion Hcl as [|? ? Hct Hcr]; subst. cbn [run_txs].
-  pose proof (run_tx_inv A I W e h t s HU HW Hct Hinv) as Hstep.
+  pose proof (run_tx_inv A I W e h t s G2 HU HW Hct Hinv) as Hstep.
   destruct (run_tx e h t s) as [s1 x]. cbn [fst] in Hstep.
-  specialize (IH s1 HU HW Hcr Hstep). destruct (run_txs e h r s1) as [s2 xs]. exact IH.
+  specialize (IH s1 G2 HU HW Hcr Hstep). destruct (run_txs e h r s1) as [s2 xs]. exact IH.
 Qed.
 
 (* a block mints exactly the rewards its after() phase schedules *)
-Theorem run_block_inv : forall A I W e h ts rw s, universe A I -> supply_bound W -> txs_closed A I ts -> sched_ok A rw ->
+Theorem run_block_inv : forall A I W e h ts rw s, g002 (gates e) = true -> universe A I -> supply_bound W -> txs_closed A I ts -> sched_ok A rw ->
   led_inv A I W s -> led_inv A I (W + sched_total rw) (fst (run_block e h ts rw s)).
 Proof.
   intros. rewrite run_block_fst. apply end_block_inv; try assumption. apply run_txs_inv; assumption.
@@ -355,10 +359,10 @@ Proof.
 Qed.
 
 (* every history: wealth = initial wealth + the rewards minted so far (the bound is on the final supply) *)
-Theorem run_chain_inv : forall A I e bs W s, universe A I -> supply_bound (W + minted_chain bs) ->
+Theorem run_chain_inv : forall A I e bs W s, g002 (gates e) = true -> universe A I -> supply_bound (W + minted_chain bs) ->
   Forall (block_closed_led A I) bs -> led_inv A I W s -> led_inv A I (W + minted_chain bs) (run_chain e bs s).
 Proof.
-  intros A I e bs. induction bs as [|[[h ts] rw] r IH]; intros W s HU HW Hcl Hinv; cbn [minted_chain run_chain snd] in *.
+  intros A I e bs. induction bs as [|[[h ts] rw] r IH]; intros W s G2 HU HW Hcl Hinv; cbn [minted_chain run_chain snd] in *.
   - rewrite Z.add_0_r. exact Hinv.
   - inversion Hcl as [|? ? [Hcb Hrw] Hcr]; subst. cbn [block_txs fst snd] in *.
     pose proof (minted_nonneg A I r Hcr) as Hm. pose proof (sched_total_nonneg A rw Hrw) as Hr0.
@@ -371,13 +375,13 @@ Qed.
 Definition same_but_bal (s s' : st) : Prop :=
   cur s' = cur s /\ trie s' = trie s /\ pend s' = pend s /\ esc s' = esc s /\ burned s' = burned s.
 
-Theorem rejected_noop : forall e h t s s' r, run_tx e h t s = (s', r) -> r <> ROk ->
+Theorem rejected_noop : forall e h t s s' r, g002 (gates e) = true -> run_tx e h t s = (s', r) -> r <> ROk ->
   (r = REvict /\ s' = s) \/
-  (r <> REvict /\ tx_fee <= bal s (tx_src t) /\ same_but_bal s s' /\
-   bal s' = add_bal (fst (sub_bal (bal s) (tx_src t) tx_fee)) fee_account tx_fee).
+  (r <> REvict /\ tx_fee e <= bal s (tx_src t) /\ same_but_bal s s' /\
+   bal s' = add_bal (fst (sub_bal (bal s) (tx_src t) (tx_fee e))) fee_account (tx_fee e)).
 Proof.
-  intros e h t s s' r. unfold run_tx, fee_step.
-  destruct (Z.ltb_spec (bal s (tx_src t)) tx_fee).
+  intros e h t s s' r G2. unfold run_tx, fee_step. rewrite G2.
+  destruct (Z.ltb_spec (bal s (tx_src t)) (tx_fee e)).
   - intros [= <- <-] _. left. auto.
   - set (s1 := set_bal s _). destruct (execute e h t s1) as [s2 r2] eqn:Ee.
     destruct (execute_shape e h t s1 s2 r2 Ee) as (_ & Hpend & _).
@@ -505,9 +509,9 @@ Theorem run_tx_stake : forall A I W e h t s i, universe A I -> supply_bound W ->
   stake_of (fst (run_tx e h t s)) i = stake_of s i + booked t (snd (run_tx e h t s)) s i.
 Proof.
   intros A I W e h t s i HU HW Hcl Hinv. unfold run_tx.
-  pose proof (fee_step_inv A I W s (tx_src t) HU (proj1 Hcl) Hinv) as H1.
-  pose proof (fee_step_cur s (tx_src t)) as (Hc & _).
-  destruct (fee_step s (tx_src t)) as [s1 ok]. cbn [fst] in H1, Hc.
+  pose proof (fee_step_inv A I W e s (tx_src t) HU (proj1 Hcl) Hinv) as H1.
+  pose proof (fee_step_cur e s (tx_src t)) as (Hc & _).
+  destruct (fee_step e s (tx_src t)) as [s1 ok]. cbn [fst] in H1, Hc.
   destruct ok; [|cbn; lia].
   destruct (execute e h t s1) as [s2 r] eqn:Ee.
   assert (Hb : forall r', r' <> ROk -> booked t r' s i = 0) by (intros r' Hr; destruct r'; try reflexivity; congruence).
@@ -531,28 +535,28 @@ Fixpoint booked_chain (e : env) (bs : list block) (s : st) (i : N) : Z :=
   | (h, ts, rw) :: r => booked_txs e h ts s i + booked_chain e r (fst (run_block e h ts rw s)) i
   end.
 
-Lemma run_txs_stake : forall A I W e h ts s i, universe A I -> supply_bound W -> txs_closed A I ts -> led_inv A I W s ->
-  stake_of (fst (run_txs e h ts s)) i = stake_of s i + booked_txs e h ts s i.
+Lemma run_txs_stake : forall A I W e h ts s i, g002 (gates e) = true -> universe A I -> supply_bound W -> txs_closed A I ts ->
+  led_inv A I W s -> stake_of (fst (run_txs e h ts s)) i = stake_of s i + booked_txs e h ts s i.
 Proof.
-  intros A I W e h ts. induction ts as [|t r IH]; intros s i HU HW Hcl Hinv; [cbn; lia|].
+  intros A I W e h ts. induction ts as [|t r IH]; intros s i G2 HU HW Hcl Hinv; [cbn; lia|].
   inversion Hcl as [|? ? Hct Hcr]; subst. cbn [run_txs booked_txs].
   pose proof (run_tx_stake A I W e h t s i HU HW Hct Hinv) as H1.
-  pose proof (run_tx_inv A I W e h t s HU HW Hct Hinv) as H2.
+  pose proof (run_tx_inv A I W e h t s G2 HU HW Hct Hinv) as H2.
   destruct (run_tx e h t s) as [s1 x]. cbn [fst snd] in *.
-  specialize (IH s1 i HU HW Hcr H2). destruct (run_txs e h r s1) as [s2 xs]. cbn [fst] in *. lia.
+  specialize (IH s1 i G2 HU HW Hcr H2). destruct (run_txs e h r s1) as [s2 xs]. cbn [fst] in *. lia.
 Qed.
 
-Theorem run_chain_stake : forall A I e bs W s i, universe A I -> supply_bound (W + minted_chain bs) ->
+Theorem run_chain_stake : forall A I e bs W s i, g002 (gates e) = true -> universe A I -> supply_bound (W + minted_chain bs) ->
   Forall (block_closed_led A I) bs -> led_inv A I W s ->
   stake_of (run_chain e bs s) i = stake_of s i + booked_chain e bs s i.
 Proof.
-  intros A I e bs. induction bs as [|[[h ts] rw] r IH]; intros W s i HU HW Hcl Hinv; [cbn; lia|].
+  intros A I e bs. induction bs as [|[[h ts] rw] r IH]; intros W s i G2 HU HW Hcl Hinv; [cbn; lia|].
   inversion Hcl as [|? ? [Hcb Hrw] Hcr]; subst. cbn [run_chain booked_chain minted_chain block_txs fst snd] in *.
   pose proof (minted_nonneg A I r Hcr) as Hm. pose proof (sched_total_nonneg A rw Hrw) as Hr0.
   assert (HW1 : supply_bound W) by (unfold supply_bound in *; lia).
   rewrite (IH (W + sched_total rw)); try assumption.
   - rewrite run_block_fst at 1. unfold stake_of at 1. rewrite end_block_cur.
-    pose proof (run_txs_stake A I W e h ts s i HU HW1 Hcb Hinv) as H1. unfold stake_of in H1 at 1. lia.
+    pose proof (run_txs_stake A I W e h ts s i G2 HU HW1 Hcb Hinv) as H1. unfold stake_of in H1 at 1. lia.
   - rewrite <- Z.add_assoc. exact HW.
   - apply run_block_inv; assumption.
 Qed.
@@ -594,3 +598,18 @@ Proof.
   cbn [guarded_chain guarded_txs]. repeat split.
   - apply boundary_covers, empty_boundary.
 Qed.
+
+(* ---------- before proposal002 the guard g002 cannot be dropped: HEAD's historic behaviour ---------- *)
+(* balance writes were not journalled: the 10-token charge of a REJECTED operator-node transaction survives the revert,
+   so the transaction changes more than the fee and liquid + locked + scheduled drops *)
+Definition env_pre002 : env :=
+  {| ids := [1%N; 2%N]; contract := fun _ => false;
+     gates := {| g002 := false; g003 := false; g004 := true; g012 := true; g026 := true |} |}.
+
+Theorem rejected_noop_pre002_refuted :
+  let s := empty_state rich in
+  let r := run_tx env_pre002 100 (TOpNode 2 None) s in
+  snd r = RNoMiner /\
+  bal (fst r) 2%N = bal s 2%N - tx_fee env_pre002 - ten_tokens /\
+  wealth [1%N; 2%N] [1%N; 2%N] (fst r) = wealth [1%N; 2%N] [1%N; 2%N] s - ten_tokens.
+Proof. vm_compute. repeat split; reflexivity. Qed.
